@@ -459,7 +459,7 @@ def _resolve_conservation(ck):
     ex = Explorer(ctx, fn, env={gname: G, jname: V(jname), sname: V(sname)}, unroll=(0, 1))
     paths = ex.run(body=inner.body)
     ck.add_paths(len(paths))
-    ck.floor("C08.5 paths through one group of resolve", len(paths), 4)
+    ck.floor("C08.5 paths through one group of resolve", len(paths), 3)
     Gl = T.mk_call("list", [G])
     n_join = n_sep = 0
     for pa in paths:
@@ -501,7 +501,9 @@ def _resolve_conservation(ck):
             ck.ok("C08.5", "AlignmentResults.resolve:separate", w, "both members go to the un-joined list", desc)
         elif joined == 1 and not sep_all and not sep_first:
             n_join += 1
-            elig = any(f[0] == "app" and f[1].endswith("check_overlap") and tv for f, tv in pa.facts.items())
+            def conj(f):
+                return list(f[1]) if f[0] == "and" else [f]
+            elig = any(tv and any(x[0] == "app" and x[1].endswith("check_overlap") for x in conj(f)) for f, tv in pa.facts.items())
             ck.judge(elig, "C08.5", "AlignmentResults.resolve:joined", w,
                      "a joined row is appended only when check_overlap accepted the pair", found=desc,
                      required="check_overlap(...) true on the path")
@@ -556,25 +558,38 @@ def _joined_row(ck):
         pair = resolves[0][1] if resolves[0][0] == "mcall" else resolves[0][2]
         if not (pair[0] == "app" and pair[1].endswith(".checkForConflicts")):
             raise AnalysisError(f"{w}: conflict pair is not built by checkForConflicts: {T.show(pair)[:160]}")
-        left, right = pair[2], list(dict(pair[3]).values())[0]
-        ck.judge({left, right} == {first_self, first_other}, "C08.6", "AlignmentResultRow.resolve:parts", w,
-                 "the join resolves conflicts between the first segment of each part", found=f"{T.show(left)} / {T.show(right)}",
-                 required="self.segments[0] and other.segments[0]")
-        # earlier part on the left
+        left0, right0 = pair[2], list(dict(pair[3]).values())[0]
         cond = T.mk_lt(T.mk_attr(T.mk_attr(T.mk_idx(self_attr("alignedPairs"), C(0)), "reference"), "position"),
                        T.mk_attr(T.mk_attr(T.mk_idx(T.mk_attr(other, "alignedPairs"), C(0)), "reference"), "position"))
         pc, pol = T.positive(cond)
-        tv = pa.facts.get(pc)
-        if tv is None:
-            alt = [k for k in pa.facts if T.contains(k, T.mk_attr(other, "alignedPairs")) or T.contains(k, T.mk_attr(other, "referenceStartPosition"))]
-            if alt:
-                raise AnalysisError(f"{w}: ordering test of the two parts not recognised: {T.show(alt[0])[:160]}")
-            ck.violation("C08.6", "AlignmentResultRow.resolve:order", w, "the two parts are joined without ordering them by "
-                         "reference position", found=pa.describe()[:200], required="earlier part as left segment")
+        cases = []
+        if left0[0] == "select" or right0[0] == "select":
+            # the order is chosen by a conditional expression: one case per outcome of its test
+            sel = left0 if left0[0] == "select" else right0
+            sc, spol = T.positive(sel[1])
+            for tvc in (True, False):
+                f2 = dict(pa.facts)
+                f2[sc] = tvc
+                cases.append((T.specialize(left0, {sc: tvc}), T.specialize(right0, {sc: tvc}), f2))
+            n += 1
         else:
-            self_first = (tv == pol)
-            ck.judge((left == first_self) == self_first, "C08.6", f"AlignmentResultRow.resolve:order:{'self' if self_first else 'other'}-first",
-                     w, "the part that starts earlier on the reference is the left segment of the conflict pair",
-                     found=f"left = {T.show(left)} when self starts {'earlier' if self_first else 'later or equal'}",
-                     required="left = the earlier part")
+            cases.append((left0, right0, dict(pa.facts)))
+        for left, right, facts in cases:
+            ck.judge({left, right} == {first_self, first_other}, "C08.6", "AlignmentResultRow.resolve:parts", w,
+                     "the join resolves conflicts between the first segment of each part", found=f"{T.show(left)} / {T.show(right)}",
+                     required="self.segments[0] and other.segments[0]")
+            # earlier part on the left
+            tv = facts.get(pc)
+            if tv is None:
+                alt = [k for k in facts if T.contains(k, T.mk_attr(other, "alignedPairs")) or T.contains(k, T.mk_attr(other, "referenceStartPosition"))]
+                if alt:
+                    raise AnalysisError(f"{w}: ordering test of the two parts not recognised: {T.show(alt[0])[:160]}")
+                ck.violation("C08.6", "AlignmentResultRow.resolve:order", w, "the two parts are joined without ordering them by "
+                             "reference position", found=pa.describe()[:200], required="earlier part as left segment")
+            else:
+                self_first = (tv == pol)
+                ck.judge((left == first_self) == self_first, "C08.6", f"AlignmentResultRow.resolve:order:{'self' if self_first else 'other'}-first",
+                         w, "the part that starts earlier on the reference is the left segment of the conflict pair",
+                         found=f"left = {T.show(left)} when self starts {'earlier' if self_first else 'later or equal'}",
+                         required="left = the earlier part")
     ck.floor("C08.6 joined-row return paths", n, 2)
